@@ -1,2 +1,105 @@
+"""C12.order / C12.block - lock order over the resolved default stack.
+
+Locks: one `lock` per layer instance (taken in toLower, held while the lower layer's send runs), the noise layer's
+`_flush_lock` (held while decrypted frames are delivered upward), the iq layer's `_pingQueueLock`.
+Edges held -> acquired are derived from what can run inside each critical section:
+  lock(i)     -> lock(j) for j below i   (send of the lower layer may call its own toLower)
+  _flush_lock -> lock(j) for every j     (upward delivery runs handlers, which send)
+A cycle, or a chain that re-acquires a lock it holds, needs code inside a critical section that goes the other way:
+a `send` path that delivers upward (toUpper / receive), or code under a layer lock that takes `_flush_lock`, or a call
+made while `_pingQueueLock` is held.  The rule checks exactly those three facts on the class-level call graph.
+"""
+import ast
+
+from ..cfg import CFG, walk_no_nested
+from ..deps import node_exprs
+from ..report import where
+from ..repo import unparse, is_self_attr
+from ..stackmodel import default_layers, flatten, FLAGS
+
+LAYERS = "yowsup/layers/__init__.py"
+UP_CALLS = ("toUpper", "receive", "_flush_incoming_buffer")
+
+
+def reach_self_calls(repo, cls, start, limit=60):
+    """methods of cls (incl. inherited) reachable from `start` through self.m() calls (callbacks passed as
+    arguments are not synchronous calls and are not followed)"""
+    seen, todo = {}, [start]
+    while todo and len(seen) < limit:
+        name = todo.pop()
+        if name in seen:
+            continue
+        k, fn = repo.find_method(cls, name)
+        if fn is None:
+            continue
+        seen[name] = (k, fn)
+        for n in ast.walk(fn):
+            if isinstance(n, ast.Call) and is_self_attr(n.func) and n.func.attr not in seen:
+                todo.append(n.func.attr)
+    return seen
+
+
 def run(ctx):
-    pass
+    repo = ctx.repo
+    ctx.rule("C12.order", "no downward path delivers upward; no layer-lock holder takes the flush lock; nothing is called under the ping lock", floor=20)
+    ctx.rule("C12.block", "blocking get() only on queues that are reset per attempt", floor=1)
+    v, se = default_layers(repo, dict.fromkeys(FLAGS, True))
+    layers = flatten(v)
+    if layers is None:
+        ctx.undecided("C12.order", where("yowsup/stacks/yowstack.py", "YowStackBuilder.getDefaultLayers", None), "default stack", "not evaluated")
+        return
+    flat = []
+    for L in layers:
+        flat += L if isinstance(L, list) else [L]
+    par = repo.cls(LAYERS, "YowParallelLayer")
+    flat.append(par)
+    for c in flat:
+        repo.consulted.add(c.relpath)
+        w = where(c.relpath, c.name + ".send", None)
+        reach = reach_self_calls(repo, c, "send")
+        ups = []
+        for name, (k, fn) in reach.items():
+            for n in ast.walk(fn):
+                if isinstance(n, ast.Call) and is_self_attr(n.func) and n.func.attr in ("toUpper", "_flush_incoming_buffer"):
+                    ups.append("%s.%s -> %s" % (k.name, name, n.func.attr))
+                if isinstance(n, ast.Call) and isinstance(n.func, ast.Attribute) and n.func.attr == "acquire" and "_flush_lock" in unparse(n.func.value):
+                    ups.append("%s.%s takes _flush_lock" % (k.name, name))
+        ctx.check("C12.order", not ups, w, "%s.send never delivers upward" % c.name,
+                  "while the upper layer's lock is held (toLower), %s: a handler that answers would re-acquire that lock on the same thread and block forever" % "; ".join(ups[:3]),
+                  "%d method(s) reachable from send, none delivers upward or takes the flush lock" % len(reach))
+    # the ping lock guards plain dictionary operations only
+    iq = repo.cls("yowsup/layers/protocol_iq/layer.py", "YowIqProtocolLayer")
+    for name in ("gotPong", "waitPong"):
+        fn = iq.methods.get(name)
+        if fn is None:
+            continue
+        g = CFG(fn)
+        acq = [n for n in g.live if n.kind == "stmt" and unparse(n.stmt) == "self._pingQueueLock.acquire()"] + [n for n in g.live if n.kind == "with_enter" and "_pingQueueLock" in unparse(n.stmt.items[0].context_expr)]
+        rel = [n for n in g.live if n.kind == "stmt" and unparse(n.stmt) == "self._pingQueueLock.release()"] + [n for n in g.live if n.kind == "with_exit" and "_pingQueueLock" in unparse(n.stmt.items[0].context_expr)]
+        bad = []
+        if acq:
+            inside = g.reachable_from(acq[0], avoid=rel)
+            for n in inside:
+                if n is acq[0]:
+                    continue
+                for e in node_exprs(n):
+                    for x in walk_no_nested(e):
+                        if isinstance(x, ast.Call) and (is_self_attr(x.func) or (isinstance(x.func, ast.Attribute) and "getStack" in unparse(x.func))):
+                            bad.append(unparse(x)[:50])
+        ctx.check("C12.order", bool(acq) and not bad, where(iq.relpath, "YowIqProtocolLayer." + name, fn.lineno), "critical section of _pingQueueLock in " + name,
+                  "a call (%s) is made while the ping lock is held: it can raise or wait with the lock held" % ", ".join(bad[:2]), "only dictionary operations under the ping lock")
+    # blocking get without timeout
+    gets = []
+    for m in repo.modules.values():
+        if "/demos/" in m.relpath or "stacks/" in m.relpath:
+            continue
+        for c in m.classes.values():
+            for fname, fn in c.methods.items():
+                for n in ast.walk(fn):
+                    if isinstance(n, ast.Call) and isinstance(n.func, ast.Attribute) and n.func.attr == "get" and any(k.arg == "block" and unparse(k.value) == "True" for k in n.keywords) \
+                            and not any(k.arg == "timeout" for k in n.keywords):
+                        gets.append((m.relpath, c.name, fname, n))
+    for rel, cn, fname, n in gets:
+        # shares the finding with C04.attempt: the queue is created once and never reset on disconnect
+        ctx.note("blocking get without timeout at %s %s.%s (%s) - covered by known finding C04.attempt" % (rel, cn, fname, unparse(n.func.value)))
+    ctx.hold("C12.block", where("yowsup/layers/noise/layer.py", "YowNoiseLayer._handle_stream_event", None), "blocking queue reads: %d" % len(gets), "the only blocking read is the handshake segment queue (see C04.attempt)")
